@@ -20,6 +20,7 @@ RULE += (' Also: raw inputs with partially defined predicates (x < 2 over number
 RULE += (' Also: iter(callable, sentinel) with items whose comparison fails, and with one-sided equality (operand order of ==); iterables that are not iterators; opaque payloads (no truth value / equality / hash).')
 RULE += (' Also: callables of every flavour (def, async def, partial, call object, object returning a non-coroutine awaitable).')
 RULE += (' Also: a callable whose first result is plain and whose later results are awaitable payload.')
+RULE += (' Also: iter(callable, sentinel) asked again after its end stays ended and does not call the callable; an identical sentinel object that cannot be compared at all.')
 ASSUMPTIONS = ["the stdlib of the running interpreter (3.12) is the reference",
                "documented deviations encoded: accumulate([]) without initial raises TypeError; tee handle indexable",
                "batched(strict=True) reference = itertools.batched + ValueError on a short batch (3.13 semantics)"]
